@@ -46,6 +46,80 @@ func flip(file *ast.File) int {
 	return n
 }
 
+// hasBreak reports an unlabeled break that would bind to a switch wrapped
+// around n (i.e. not nested in an inner for/switch/select).
+func hasBreak(n ast.Node) bool {
+	found := false
+	var walk func(n ast.Node)
+	walk = func(n ast.Node) {
+		ast.Inspect(n, func(x ast.Node) bool {
+			if x == nil || found {
+				return false
+			}
+			switch v := x.(type) {
+			case *ast.BranchStmt:
+				if v.Tok == token.BREAK && v.Label == nil {
+					found = true
+				}
+			case *ast.ForStmt, *ast.RangeStmt, *ast.SwitchStmt, *ast.TypeSwitchStmt, *ast.SelectStmt, *ast.FuncLit:
+				if x != n {
+					return false
+				}
+			}
+			return true
+		})
+	}
+	walk(n)
+	return found
+}
+
+// toSwitch rewrites if statements without an init clause whose bodies contain
+// no unlabeled break into tagless switch statements (in statement lists only).
+func toSwitch(file *ast.File) int {
+	n := 0
+	conv := func(list []ast.Stmt) {
+		for i, st := range list {
+			is, ok := st.(*ast.IfStmt)
+			if !ok || is.Init != nil || hasBreak(is) {
+				continue
+			}
+			sw := &ast.SwitchStmt{Body: &ast.BlockStmt{}}
+			cur := is
+			for {
+				sw.Body.List = append(sw.Body.List, &ast.CaseClause{List: []ast.Expr{cur.Cond}, Body: cur.Body.List})
+				if cur.Else == nil {
+					break
+				}
+				if eb, ok := cur.Else.(*ast.BlockStmt); ok {
+					sw.Body.List = append(sw.Body.List, &ast.CaseClause{Body: eb.List})
+					break
+				}
+				next := cur.Else.(*ast.IfStmt)
+				if next.Init != nil {
+					// keep the rest as an if inside a default clause
+					sw.Body.List = append(sw.Body.List, &ast.CaseClause{Body: []ast.Stmt{next}})
+					break
+				}
+				cur = next
+			}
+			list[i] = sw
+			n++
+		}
+	}
+	ast.Inspect(file, func(x ast.Node) bool {
+		switch v := x.(type) {
+		case *ast.BlockStmt:
+			conv(v.List)
+		case *ast.CaseClause:
+			conv(v.Body)
+		case *ast.CommClause:
+			conv(v.Body)
+		}
+		return true
+	})
+	return n
+}
+
 func main() {
 	dir := os.Args[1]
 	mode := "rename"
@@ -64,8 +138,14 @@ func main() {
 		for i, file := range pk.Syntax {
 			path := pk.CompiledGoFiles[i]
 			changed := false
-			if mode == "flip" {
-				if k := flip(file); k > 0 {
+			if mode == "flip" || mode == "switch" {
+				k := 0
+				if mode == "flip" {
+					k = flip(file)
+				} else {
+					k = toSwitch(file)
+				}
+				if k > 0 {
 					n += k
 					var buf bytes.Buffer
 					if err := format.Node(&buf, pk.Fset, file); err != nil {
